@@ -170,13 +170,17 @@ class Verdict:
             print(f"KNOWN-FINDING: property={self.prop} key={k} {txt}")
         lines = []
         # report the smallest failing inputs first; cap the number of VIOLATION lines (all are counted)
+        only = os.environ.get("VERIF_REPLAY_KEY")
+        if only:
+            self.violations = {k: v for k, v in self.violations.items() if k == only}
+            print(f"# replay: violation {only} " + ("reproduced" if self.violations else "NOT reproduced"))
         ranked = sorted(self.violations.items(), key=lambda kv: (len(canon(kv[1][1])), kv[0]))
         if len(ranked) > MAX_REPORT:
             print(f"# {self.prop}: {len(ranked)} distinct failing inputs; reporting the {MAX_REPORT} smallest")
         for k, (what, payload) in ranked[:MAX_REPORT]:
             path = os.path.join(REPLAYS, f"{self.prop}_{k}.json")
             payload = dict(payload)
-            payload.update({"property": self.prop, "key": k, "what": what,
+            payload.update({"property": self.prop, "key": k, "what": what, "seed": SEED, "tier": self.tier,
                             "rerun": f"./check {self.prop} --replay {path}"})
             with open(path, "w") as f:
                 json.dump(payload, f, indent=1, default=str)
@@ -210,8 +214,9 @@ class Verdict:
             "wall_s": round(time.time() - self.t0, 2),
             "violations": len(self.violations),
         }
-        with open(os.path.join(EVIDENCE, f"{self.prop}.json"), "w") as f:
-            json.dump(ev, f, indent=1, default=str)
+        if not only:      # a replay does not rewrite the evidence of the full run
+            with open(os.path.join(EVIDENCE, f"{self.prop}.json"), "w") as f:
+                json.dump(ev, f, indent=1, default=str)
         st = cov["states"]
         print(f"{self.prop} [{self.tier}] states={st} transitions={cov['transitions']} "
               f"impl_traces={cov['traces_validated_against_impl']} evaluations={self.evaluations} "
